@@ -223,6 +223,9 @@ class Interp:
                     for t in st.targets:
                         if isinstance(t, ast.Name) and t.id == name:
                             return ("assign", mod, st, cnode)
+                if isinstance(st, ast.AnnAssign) and st.value is not None and isinstance(st.target, ast.Name) \
+                        and st.target.id == name and "ClassVar" in ast.unparse(st.annotation):
+                    return ("assign", mod, st, cnode)
         return None
 
     def is_subclass(self, cv, other_name):
@@ -256,7 +259,7 @@ class Interp:
                     "super", "ValueError", "TypeError", "KeyError", "IndexError",
                     "Exception", "reversed", "round", "divmod", "NotImplementedError",
                     "AssertionError", "OverflowError", "StopIteration", "next", "iter",
-                    "frozenset", "hash", "id", "callable", "format", "ord", "chr"):
+                    "frozenset", "hash", "id", "callable", "format", "ord", "chr", "map", "filter"):
             return ExtV(name), None
         return None, None
 
@@ -364,6 +367,14 @@ class Interp:
             if isinstance(x, ast.Name) and x.id == name and isinstance(x.ctx, ast.Store):
                 return True
         return False
+
+    def ev_NamedExpr(self, n, st):
+        out = []
+        for s, v in self.ev(n.value, st):
+            if not isinstance(v, Raised) and isinstance(n.target, ast.Name):
+                self.set_var(s, n.target.id, v)
+            out.append((s, v))
+        return out
 
     def ev_Tuple(self, n, st):
         return self._ev_seq(n.elts, st, lambda items: TupleV(items))
@@ -541,9 +552,16 @@ class Interp:
                 lo, hi = DT_RANGES[attr]
                 return [(st, IntV(lo, hi, ("dtfield", base.sym, attr)))]
             if attr in ("date", "weekday", "isoweekday", "replace", "time", "timestamp",
-                        "strftime", "isoformat", "toordinal"):
+                        "strftime", "isoformat", "toordinal", "timetuple"):
                 return [(st, ExtV("dt." + attr, bound=base))]
             return [(st, self.undecided(st, node, "datetime attribute " + attr))]
+        if isinstance(base, DateV):
+            # the calendar fields and weekday of x.date() are those of x
+            if attr in ("year", "month", "day"):
+                return self.getattr_(st, base.dt, attr, node, default)
+            if attr in ("weekday", "isoweekday", "toordinal"):
+                return [(st, ExtV("dt." + attr, bound=base.dt))]
+            return [(st, self.undecided(st, node, "date attribute " + attr))]
         if isinstance(base, MatchV):
             if attr in ("group", "span", "start", "end", "captures", "groupdict", "groups"):
                 return [(st, ExtV("match." + attr, bound=base))]
@@ -681,7 +699,20 @@ class Interp:
                     b = hi.lo if hi is not None else None
                     out.append((s2, TupleV(base.items[a:b], base.is_list)))
                 elif isinstance(base, StrV):
-                    out.append((s2, StrV(None, sym=("slice", base.sym))))
+                    const_b = all(b is None or (isinstance(b, IntV) and b.is_const()) for b in (lo, hi)) \
+                        and n.slice.step is None
+                    if const_b:
+                        a = lo.lo if lo is not None else None
+                        b = hi.lo if hi is not None else None
+                        if base.is_const():
+                            out.append((s2, StrV({base.const()[a:b]})))
+                        elif base.vals is not None:
+                            out.append((s2, StrV({x[a:b] for x in base.vals})))
+                        else:
+                            out.append((s2, StrV(None, sym=("slice", base.sym, a, b))))
+                    else:
+                        out.append((s2, StrV(None, sym=("slice", base.sym, "?", getattr(n, "lineno", 0),
+                                                        getattr(n, "col_offset", 0)))))
                 else:
                     out.append((s2, self.undecided(s2, n, "slice")))
         return out
@@ -1227,6 +1258,12 @@ class Interp:
                     and not getattr(a, "bound", None) and not getattr(b, "bound", None) \
                     and not any(isinstance(x, ExtV) and x.name.startswith("result:") for x in (a, b)):
                 same = False
+            elif isinstance(a, EnumV) and isinstance(b, EnumV):
+                # enum members are singletons: identity is equality
+                res = self.equals(st, a, anode, b, bnode, node)
+                if opn == "IsNot":
+                    res = [(s, (t if isinstance(t, Raised) else not t)) for s, t in res]
+                return res
             if same is None:
                 return self._unknown_bool(st, ("cmp", opn, a.sym, b.sym))
             return [(st, same if opn == "Is" else not same)]
